@@ -35,6 +35,11 @@ SEEDED_CHANGES_CAUGHT = [
      "reachable_iff_* / graph_equals_live_set / edges_equal_live_set / implementation_aborted (generator 'shared': identical key sets, different grouping)"),
     ("S1", "Dependency::Stop skips RemoveReverseDependency for runtime removals (self-test)", "edges_equal_live_set"),
     ("S2", "Dependency::GetPeriod() answers nullptr (self-test)", "reachable_iff_* (closed periods follow from the D/T lines, the object's answer is only compared)"),
+    ("S3", "Dependency::OnConfigLoaded: default filter of a service parent is OK only (self-test)", "reachable_iff_state (generator 'def': attributes left unset)"),
+    ("S4", "dependency.ti: disable_notifications defaults to false (self-test)", "reachable_iff_notification (generator 'def'); config_defaults_match_source breaks as well"),
+    ("C07-12", "BeforeOnAllConfigLoadedHandler adds and searches in one pass: cycles with two edges of one batch are accepted",
+     "cycle_is_rejected (before: the evaluation of the accepted cyclic graph fanned out below the 256-level guard and the configuration process "
+     "timed out = broken tie; now a Q has a wall-clock budget -> 'E evaluation-timeout' -> clause evaluation_terminates, and the L line is judged first)"),
 ]
 
 
@@ -47,7 +52,10 @@ class C07(Check):
                          "acyclic_iff_no_closed_walk", "no_cycle_iff_ranked", "cycle_check_iff_no_cycle",
                          "runtime_add_refused_unchanged", "runtime_adds_stay_acyclic", "model_runtime_add_meets_spec",
                          "registry_refines_set", "fresh_load_spec", "runtime_equals_fresh_load",
-                         "history_step_meets_spec", "history_meets_spec", "history_stays_acyclic"]
+                         "history_step_meets_spec", "history_meets_spec", "history_stays_acyclic",
+                         "reachable_via_registry", "reachable_via_fresh_load", "registry_query_meets_spec", "parents_via_registry", "history_queries_via_registry",
+                         "unset_states_spec", "unset_flags_spec",
+                         "recursion_limit_matches_source", "state_filter_bits_match_source", "config_defaults_match_source"]
     technique = ("Lean 4 proof (decision logic stated outright, fixed-point uniqueness by induction on a ranking, DFS invariant "
                  "'finished list is topologically sorted') over a hand-written model; correspondence by exhaustive + random differential "
                  "execution of Checkable::IsReachable on real Host/Service/Dependency objects and of the config-load path "
@@ -66,6 +74,15 @@ class C07(Check):
                   "changes, queries and edge read-outs from the empty configuration, the specification predicate over the recorded history finds no "
                   "violated clause - acyclicity of the registered graph is an invariant established by the cycle checker (history_stays_acyclic), not a hypothesis; "
                   "GetParents/GetChildren/GetReverseDependencies equal the live set after every history. "
+                  "REGISTRY -> REACHABILITY (reachable_via_registry, reachable_via_fresh_load, registry_query_meets_spec, parents_via_registry): IsReachable "
+                  "evaluated the way the code walks it - over the group objects held in m_DependencyGroups, IsRedundancyGroup() from the group's own name, "
+                  "GetDependenciesForChild(this) from the shared registry entry - equals isReachable on the live set after EVERY runtime add/remove sequence "
+                  "and after a fresh load, for all states/aspects/checkables; GetParents() from the groups' key sets equals the live parents. "
+                  "UNSET ATTRIBUTES (unset_states_spec, unset_flags_spec): a dependency configured without states / ignore_soft_states / disable_checks / "
+                  "disable_notifications is resolved by the model as Dependency::OnConfigLoaded and dependency.ti do (DepDecl.resolve), with the availability "
+                  "it yields stated outright. SOURCE CONSTANTS (recursion_limit_matches_source, state_filter_bits_match_source, config_defaults_match_source): "
+                  "the recursion limit, the six state filter bits, OnConfigLoaded's two default filters and the three flag defaults are regenerated from the "
+                  "checked tree by gen/c07_consts.py on every run and proved equal to the model's. "
                   "The model is tied to the code by running the real IsReachable for all checkables x 3 aspects on exhaustive small graphs x state "
                   "assignments, random graphs with runtime add/remove, chains around the 256 limit, and by loading generated configurations "
                   "(one fresh process each) and comparing accepted/'Dependency cycle' with the model; the same specification predicates "
@@ -77,7 +94,15 @@ class C07(Check):
                   "and registry size are statistics (repr_agree/repr_differ). Whether a dependency's period is closed is derived from the D/T lines (which pool "
                   "period the dependency names, whether that period was set inside/outside); the value read from the Dependency object is compared, not trusted. "
                   "The reachability equation is evaluated inside the property's scope only (queryInScope: candidate ranking certifies acyclic and <= 256 levels); "
-                  "an implementation that dies (VERIFY, segmentation fault) on a generated operation sequence is reported with that sequence. "
+                  "an implementation that dies (VERIFY, segmentation fault) on a generated operation sequence is reported with that sequence; "
+                  "a query (IsReachable of all checkables x 3 aspects) that does not come back within 10 s wall clock (C07_Q_BUDGET) ends the case with "
+                  "'E evaluation-timeout' and is reported under clause evaluation_terminates ('so evaluation always terminates'); after an accepted cyclic "
+                  "load/addition (clause cycle_is_rejected) the rest of the case is not followed (the graph is outside the property's scope). "
+                  "Every query and every GetParents read-out is ALSO answered through the registry model's group objects (isReachableR / parentsR, kept in step "
+                  "with all D/X/L/A/R lines) and compared with the implementation (MISMATCH query-registry / parents-registry). "
+                  "cfg-route D/A lines may leave states / ignore_soft_states / disable_checks / disable_notifications unset ('u'): the harness omits the "
+                  "attribute, the model resolves the default (generator 'def': all-unset and one-unset dependencies x all 16 parent states, host and service "
+                  "parents, loaded and created at runtime, plus seeded random mixes). "
                   "Negative controls NC1-NC6 (see NEGATIVE_CONTROLS) pass; the harness uses public API only. "
                   "Acyclicity is expressed by a ranking certificate; a ranking excludes every cycle (proved) and exists whenever peeling empties the graph (proved). "
                   "The registry (Register/Unregister/AddDependency/RemoveDependency/PushDependencyGroupsToRegistry) is modelled and proved equal to a "
@@ -87,8 +112,13 @@ class C07(Check):
         "modelled, not verified: Dependency::IsAvailable, DependencyGroup::GetState, Checkable::IsReachable, DependencyCycleChecker/"
         "BeforeOnAllConfigLoadedHandler, OnAllConfigLoaded/Stop (reverse dependencies), per-checkable group keys and registry size; "
         "TimePeriod::IsInside itself is C08's matter: the harness sets each pool period inside/outside and the model takes that setting",
-        "history model: GetParents is read from the live dependencies of the child (not through the registry model's groups); the link "
-        "registry view <-> groupDeps used by IsReachable is `registry_refines_set` (membership), not a theorem about `reachable`",
+        "history model (hstep/hrun) evaluates queries and GetParents on the live set; that the code's evaluation through the registry's group objects "
+        "gives the same answers is proved for every runtime AddDependency/RemoveDependency sequence and for fresh loads (reachable_via_registry, "
+        "reachable_via_fresh_load, parents_via_registry), but the two models are composed by the driver (both run on every case), not by one theorem "
+        "over HOp histories (that needs fresh dependency ids per batch as a hypothesis)",
+        "translator gen/c07_consts.py (regular expressions over comment-stripped source: one literal definition of l_MaxDependencyRecursionLevel used in "
+        "IsReachable, the StateFilter* enumerators, the if/else of Dependency::OnConfigLoaded feeding FilterArrayToInt(GetStates(), ...), the default "
+        "blocks of dependency.ti); an unrecognised shape is a broken tie (translator:C07:anchor-lost), never a silent pass",
         "`Ranked`/`RankedS` hypotheses are read as 'acyclic': `ranked_excludes_cycles` (ranking => no cycle) and "
         "`cycle_check_iff_acyclic` (peeling empties the graph <=> accepted) are proved; 'no cycle => peeling empties' is the classical step not formalised",
     ]
@@ -99,6 +129,22 @@ class C07(Check):
     ]
 
     # ------------------------------------------------------------------------------------------
+    def generate(self):
+        """Translator gen/c07_consts.py: recursion limit, state filter bits, OnConfigLoaded's default filters and the
+        dependency.ti flag defaults of the checked tree -> IcingaProofs/Gen/DepConsts.lean (theorems
+        recursion_limit_matches_source, state_filter_bits_match_source, config_defaults_match_source compare them with
+        the model's constants)."""
+        import importlib.util
+        gen = os.path.join(core.ROOT, "gen", "c07_consts.py")
+        spec = importlib.util.spec_from_file_location("c07_consts", gen)
+        mod = importlib.util.module_from_spec(spec)
+        spec.loader.exec_module(mod)
+        try:
+            with core.Lock("lake"):
+                self.source_consts = mod.generate(core.REPO, os.path.join(core.LEAN, "IcingaProofs", "Gen", "DepConsts.lean"))
+        except mod.Lost as e:
+            raise core.TieBroken("translator:C07:anchor-lost", str(e))
+
     def _drive(self, path, driver):
         with open(path) as f:
             dp = subprocess.run([driver], stdin=f, stdout=subprocess.PIPE, stderr=subprocess.PIPE, text=True, errors="replace")
@@ -165,7 +211,11 @@ class C07(Check):
             try:
                 rc, err = self._harness_ops(harness, opsf, outf, timeout=120)
             except subprocess.TimeoutExpired:
-                return i, 124, "timeout"
+                # the process did not come back at all (the harness's own budget for a query did not end it): what it had
+                # flushed (everything up to the operation that hangs) is judged, followed by the same end-of-case marker
+                with open(outf, "a") as fh:
+                    fh.write("\nE evaluation-timeout\n")
+                return i, 0, "timeout"
             return i, rc, err
 
         errors = []
@@ -488,7 +538,9 @@ class C07(Check):
                     "loading the same final set (group composition, reachability, parents/children/reverse dependencies); 'shared' cases (obj and "
                     "runtime route): two children with identical composite-key sets grouped differently (plain / redundancy group / other name) x "
                     "member variation (ignore_soft_states, disable flags, filter) x order x all 16 parent states x removal and re-addition; "
-                    "V lines: GetParents/GetChildren/GetReverseDependencies of every checkable after additions and removals. evaluations = IsReachable answers compared (nodes x 3 aspects per "
+                    "V lines: GetParents/GetChildren/GetReverseDependencies of every checkable after additions and removals; 'def' cases (cfg and runtime route): "
+                    "dependencies with unset states / ignore_soft_states / disable_checks / disable_notifications (all unset, one unset at a time against "
+                    "non-default values, seeded mixes) x all 16 states of the parent. evaluations = IsReachable answers compared (nodes x 3 aspects per "
                     "query) + loads; a case is non-trivial when some checkable was unreachable in some aspect or a load was rejected; "
                     "distinct by hash of the operation sequence (counted by the Lean driver)")
         res.samples = samples
